@@ -686,6 +686,8 @@ class Interp:
                 return UNKNOWN
             if nm in ("float", "int") and len(args) == 1 and isinstance(args[0], bool):
                 return int(args[0])
+            if nm == "int" and len(args) == 1 and isinstance(args[0], float):
+                return int(args[0])
             if nm in ("float", "int") and len(args) == 1 and isinstance(args[0], (SVal, int, float)):
                 return args[0]
             if nm == "sum" and len(args) == 1 and isinstance(args[0], list) and all(isinstance(x, SVal) for x in args[0]):
@@ -712,9 +714,16 @@ class Interp:
                 t_ = args[0]
                 return {"list": BUILTIN_TYPES["list"], "tuple": BUILTIN_TYPES["tuple"], "union": TYPING_UNION,
                         "annotated": TYPING_ANNOTATED}.get(t_.kind)
-            if nm == "range" and 1 <= len(args) <= 2 and all(isinstance(a, int) and not isinstance(a, bool) for a in args) \
-                    and (args[-1] - (args[0] if len(args) == 2 else 0)) <= 8:
+            if nm == "range" and 1 <= len(args) <= 3 and all(isinstance(a, int) and not isinstance(a, bool) for a in args) \
+                    and (len(args) < 3 or args[2] != 0) and len(range(*args)) <= 12:
                 return list(range(*args))
+            if nm == "next" and 1 <= len(args) <= 2 and isinstance(args[0], list):
+                if args[0]:
+                    return args[0][0]
+                if len(args) == 2:
+                    return args[1]
+                self.trace.append(Effect("raise", "StopIteration", node=c))
+                raise _Return(UNKNOWN)
             if nm == "tuple" and len(args) == 1 and isinstance(args[0], list):
                 return list(args[0])
             # a repository dataclass: an object with fields
